@@ -227,6 +227,7 @@ func runCheck(prop, tier, repo, verif string, keep bool, only string, verbose bo
 		v.solveBundles(obs, scratch, 12)
 	}
 	v.solveAll(obs, scratch, tier == "thorough", 12)
+	v.retryTimeouts(obs, scratch, tier == "thorough")
 	v.solveAll(canaries, scratch, false, 8)
 	return v.report(prop, tier, seed, reps, obs, canaries, t0, tLoad, tGen, verbose, scratch)
 }
